@@ -22,6 +22,7 @@ import ICG.Props.C17
 
 namespace ICG.C01
 open ICG Table
+open ICG.BoundsCommon
 
 variable {α : Type}
 
@@ -62,5 +63,399 @@ example : ∃ t', sac Ex.exT' = .ok t' ∧ SoundFor Ex.exT' t' SpecSA.exV :=
 example : Ex.exT.lo 3 = 99 ∧ Ex.exT.hi 3 = -99 ∧ Ex.exT.known 3 = false := by decide
 
 end sound
+
+/-! ### histories
+
+A history is a list of public value operations of the game object (`ICG.C17.Op`, with C17's semantics:
+a raising call leaves the object as it was, except `set_known_values`, which leaves the re-initialised
+table) INTERLEAVED with bound computations.  A raising `compute` is modelled the same way: the model's
+`Computer.run` returns no table when it fails, and the history continues from the table before the
+compute.  (The real computers may have written some bound cells of unknown rows before raising; those
+cells are stale content of unknown rows, about which nothing is assumed anywhere below, and the harness
+re-synchronises the model table with the object's known rows after a raising compute in the same way.)
+
+Side conditions, both functions of `n`, the abstract known-map (`C17.Spec`) and the operation only:
+* `admissibleH` — C17's: a scalar `set_lower_bound` / `set_upper_bound` targets an unknown row;
+* `WritesOf v n` — every value a value-writing operation writes is `v`'s value for that coalition
+  (`set_known_values` also writes `0` for ∅, so it requires `v ∅ = 0`). -/
+
+/-- one step of a history: a public value operation or a bound computation -/
+inductive HOp (α : Type) where
+  | op (o : C17.Op α)
+  | compute (k : Computer)
+
+section hist
+variable [AddCommGroup α] [LinearOrder α]
+
+/-- the table after the step (whether the call returned or raised) -/
+def applyH (t : Table α) : HOp α → Table α
+  | .op o => C17.applyOp t o
+  | .compute k => C17.keep t (k.run t)
+
+/-- the table after a history -/
+def runH (t : Table α) (h : List (HOp α)) : Table α := h.foldl applyH t
+
+/-- the abstract known-map after the step: computations do not change knowledge -/
+def specStepH (n : Nat) (s : C17.Spec α) : HOp α → C17.Spec α
+  | .op o => C17.specStep n s o
+  | .compute _ => s
+
+def specRunH (n : Nat) (s : C17.Spec α) (h : List (HOp α)) : C17.Spec α := h.foldl (specStepH n) s
+
+omit [AddCommGroup α] [LinearOrder α] in
+def HOp.admissible (n : Nat) (s : C17.Spec α) : HOp α → Bool
+  | .op o => o.admissible n s
+  | .compute _ => true
+
+/-- C17's admissibility along the history -/
+def admissibleH (n : Nat) (s : C17.Spec α) : List (HOp α) → Bool
+  | [] => true
+  | x :: h => x.admissible n s && admissibleH n (specStepH n s x) h
+
+/-- the values a bulk `set_values(vals, coalitions)` writes are `v`'s: with coalitions, value `i` goes to
+    coalition `i` (`zip`); without, either one value per row or one value broadcast to all rows -/
+def ValsOf (v : Nat → α) (n : Nat) (vals : List α) : Option (List Nat) → Prop
+  | some ids => ∀ p ∈ ids.zip vals, p.2 = v p.1
+  | none => (vals.length = 2 ^ n → ∀ d (h : d < vals.length), vals[d] = v d) ∧
+      (∀ x, vals = [x] → ∀ d, d < 2 ^ n → x = v d)
+
+/-- every value written by a value-writing operation is `v`'s value for that coalition -/
+def WritesOf (v : Nat → α) (n : Nat) : HOp α → Prop
+  | .op (.set x c) => c < 2 ^ n → x = v c
+  | .op (.reveal x c) => c < 2 ^ n → x = v c
+  | .op (.setValues vals cs) => ValsOf v n vals cs
+  | .op (.setKnownValues vals cs) => v 0 = 0 ∧ ValsOf v n vals cs
+  | _ => True
+
+/-- the invariant: the values the abstract known-map holds are `v`'s -/
+def SpecOf (v : Nat → α) (n : Nat) (s : C17.Spec α) : Prop :=
+  ∀ c, c < 2 ^ n → ∀ x, s c = some x → x = v c
+
+omit [LinearOrder α] in
+theorem specOf_init {v : Nat → α} (n : Nat) (hv0 : v 0 = 0) : SpecOf v n C17.specInit := by
+  intro c _ x hx
+  by_cases hc : c = 0
+  · subst hc
+    have : x = 0 := by simpa [C17.specInit] using hx.symm
+    rw [this, hv0]
+  · simp [C17.specInit, hc] at hx
+
+omit [AddCommGroup α] [LinearOrder α] in
+theorem specOf_put_some {v : Nat → α} {n : Nat} {s : C17.Spec α} (h : SpecOf v n s) {c : Nat} {x : α}
+    (hx : c < 2 ^ n → x = v c) : SpecOf v n (s.put c (some x)) := by
+  intro d hd y hy
+  by_cases hdc : d = c
+  · subst hdc
+    have : x = y := by simpa [C17.Spec.put] using hy
+    rw [← this]; exact hx hd
+  · exact h d hd y (by simpa [C17.Spec.put, hdc] using hy)
+
+omit [AddCommGroup α] [LinearOrder α] in
+theorem specOf_put_none {v : Nat → α} {n : Nat} {s : C17.Spec α} (h : SpecOf v n s) (c : Nat) :
+    SpecOf v n (s.put c none) := by
+  intro d hd y hy
+  by_cases hdc : d = c
+  · simp [C17.Spec.put, hdc] at hy
+  · exact h d hd y (by simpa [C17.Spec.put, hdc] using hy)
+
+omit [AddCommGroup α] [LinearOrder α] in
+theorem specOf_foldl_put {v : Nat → α} {n : Nat} : ∀ (l : List (Nat × α)) {s : C17.Spec α},
+    (∀ p ∈ l, p.2 = v p.1) → SpecOf v n s →
+    SpecOf v n (l.foldl (fun s (p : Nat × α) => s.put p.1 (some p.2)) s)
+  | [], _, _, h => h
+  | p :: l, _, hl, h =>
+    specOf_foldl_put l (fun q hq => hl q (List.mem_cons_of_mem _ hq))
+      (specOf_put_some h (fun _ => hl p List.mem_cons_self))
+
+omit [AddCommGroup α] [LinearOrder α] in
+theorem mem_zip_of_mem_take_zip : ∀ (ids : List Nat) (k : Nat) (vals : List α) {p : Nat × α},
+    p ∈ (ids.take k).zip vals → p ∈ ids.zip vals
+  | [], _, _, _, h => by simp at h
+  | _ :: _, 0, _, _, h => by simp at h
+  | _ :: _, _ + 1, [], _, h => by simp at h
+  | a :: as, k + 1, b :: bs, p, h => by
+    simp only [List.take_succ_cons, List.zip_cons_cons, List.mem_cons] at h ⊢
+    rcases h with h | h
+    · exact Or.inl h
+    · exact Or.inr (mem_zip_of_mem_take_zip as k bs h)
+
+omit [AddCommGroup α] [LinearOrder α] in
+theorem specOf_setValues {v : Nat → α} {n : Nat} {s s' : C17.Spec α} (h : SpecOf v n s)
+    {vals : List α} {cs : Option (List Nat)} (hw : ValsOf v n vals cs)
+    (hs : C17.specSetValues n s vals cs = some s') : SpecOf v n s' := by
+  cases cs with
+  | some ids =>
+    simp only [C17.specSetValues] at hs
+    split at hs
+    · cases hs
+    · split at hs
+      · injection hs with hs
+        rw [← hs]
+        apply specOf_foldl_put _ _ h
+        intro p hp
+        apply hw p
+        exact mem_zip_of_mem_take_zip ids vals.length vals hp
+      · cases hs
+  | none =>
+    simp only [C17.specSetValues] at hs
+    split at hs
+    · rename_i hlen
+      injection hs with hs
+      rw [← hs]
+      intro d hd y hy
+      have hd' : d < vals.length := by rw [hlen]; exact hd
+      simp only [hd', dite_true] at hy
+      injection hy with hy
+      rw [← hy]
+      exact hw.1 hlen d hd'
+    · split at hs
+      · rename_i x _
+        injection hs with hs
+        rw [← hs]
+        intro d hd y hy
+        simp only [hd, if_true] at hy
+        injection hy with hy
+        rw [← hy]
+        exact hw.2 x rfl d hd
+      · cases hs
+
+omit [LinearOrder α] in
+/-- the invariant is preserved by every step whose written values are `v`'s -/
+theorem specOf_step {v : Nat → α} {n : Nat} {s : C17.Spec α} (h : SpecOf v n s) (x : HOp α)
+    (hw : WritesOf v n x) : SpecOf v n (specStepH n s x) := by
+  cases x with
+  | compute k => exact h
+  | op o =>
+    cases o with
+    | set y c =>
+      simp only [specStepH, C17.specStep]
+      split
+      · exact specOf_put_some h hw
+      · exact h
+    | unset c =>
+      simp only [specStepH, C17.specStep]
+      split
+      · exact specOf_put_none h c
+      · exact h
+    | reveal y c =>
+      simp only [specStepH, C17.specStep]
+      split
+      · split
+        · exact h
+        · exact specOf_put_some h hw
+      · exact h
+    | unreveal c =>
+      simp only [specStepH, C17.specStep]
+      split
+      · split
+        · exact specOf_put_none h c
+        · exact h
+      · exact h
+    | setValues vals cs =>
+      simp only [specStepH, C17.specStep]
+      cases hs : C17.specSetValues n s vals cs with
+      | none => exact h
+      | some s' => exact specOf_setValues h hw hs
+    | setKnownValues vals cs =>
+      simp only [specStepH, C17.specStep]
+      have h0 : SpecOf v n (C17.specInit (α := α)) := specOf_init n hw.1
+      cases hs : C17.specSetValues n C17.specInit vals cs with
+      | none => exact h0
+      | some s' => exact specOf_setValues h0 hw.2 hs
+    | setBounds up vals cs => exact h
+    | setLowerBound y c => exact h
+    | setUpperBound y c => exact h
+
+omit [AddCommGroup α] [LinearOrder α] in
+/-- C17's simulation relation implies `Inv` … -/
+theorem inv_of_rel {t : Table α} {s : C17.Spec α} (h : C17.Rel t s) : t.Inv := by
+  intro c hc hk
+  obtain ⟨h1, h2⟩ := C17.spec_of_known h hc hk
+  rw [h1] at h2
+  injection h2
+
+omit [AddCommGroup α] [LinearOrder α] in
+/-- … and, when the known-map's values are `v`'s, `Agree v` -/
+theorem agree_of_rel {v : Nat → α} {t : Table α} {s : C17.Spec α} (h : C17.Rel t s)
+    (hs : SpecOf v t.n s) : t.Agree v := by
+  intro c hc hk
+  obtain ⟨h1, h2⟩ := C17.spec_of_known h hc hk
+  exact ⟨hs c hc _ h1, hs c hc _ h2⟩
+
+/-- **one step**: every admissible step — operation or computation, returning or raising — keeps `n` and
+    C17's simulation relation, with the known-map advanced by `specStepH` (unchanged by a computation:
+    a computation changes no flag and no known row) -/
+theorem refinesH {t : Table α} {s : C17.Spec α} (h : C17.Rel t s) (x : HOp α)
+    (hadm : x.admissible t.n s = true) :
+    (applyH t x).n = t.n ∧ C17.Rel (applyH t x) (specStepH t.n s x) := by
+  cases x with
+  | op o => exact C17.refines h o hadm
+  | compute k =>
+    simp only [applyH, specStepH]
+    rcases C17.keep_cases t (k.run t) with ⟨t', ht', hk⟩ | ⟨e, _, hk⟩
+    · rw [hk]
+      obtain ⟨f1, f2, _, f4⟩ := run_frame (inv_of_rel h) ht'
+      refine ⟨f1, ?_⟩
+      intro c hc
+      rw [f1] at hc
+      obtain ⟨r1, r2⟩ := h c hc
+      refine ⟨by rw [f2]; exact r1, ?_⟩
+      intro y hy
+      have hkc : t.known c = true := by rw [r1, hy]; rfl
+      rw [(f4 c hc hkc).1, (f4 c hc hkc).2]
+      exact r2 y hy
+    · rw [hk]; exact ⟨rfl, h⟩
+
+theorem runH_cons (t : Table α) (x : HOp α) (h : List (HOp α)) :
+    runH t (x :: h) = runH (applyH t x) h := rfl
+
+theorem runH_append (t : Table α) (h1 h2 : List (HOp α)) :
+    runH t (h1 ++ h2) = runH (runH t h1) h2 := by
+  simp [runH, List.foldl_append]
+
+omit [LinearOrder α] in
+theorem specRunH_cons (n : Nat) (s : C17.Spec α) (x : HOp α) (h : List (HOp α)) :
+    specRunH n s (x :: h) = specRunH n (specStepH n s x) h := rfl
+
+/-- **every history**: `n` is constant and the table stays related to the known-map advanced by the
+    history (no assumption on the values written) -/
+theorem refines_runH : ∀ (h : List (HOp α)) {t : Table α} {s : C17.Spec α}, C17.Rel t s →
+    admissibleH t.n s h = true → (runH t h).n = t.n ∧ C17.Rel (runH t h) (specRunH t.n s h)
+  | [], _, _, hrel, _ => ⟨rfl, hrel⟩
+  | x :: h, t, s, hrel, hadm => by
+    simp only [admissibleH, Bool.and_eq_true] at hadm
+    obtain ⟨hn, hr⟩ := refinesH hrel x hadm.1
+    have ih := refines_runH h hr (by rw [hn]; exact hadm.2)
+    rw [hn] at ih
+    exact ih
+
+/-- **C01_histories, the invariant.**  Along every admissible history whose written values are `v`'s,
+    started from any table related to a known-map holding values of `v`: `n` is constant, the table stays
+    related to the known-map advanced by the history, the known-map holds values of `v`, and therefore the
+    final table agrees with `v` on its known rows (whatever its unknown rows hold). -/
+theorem histories_agree (v : Nat → α) : ∀ (h : List (HOp α)) (t0 : Table α) (s0 : C17.Spec α),
+    C17.Rel t0 s0 → SpecOf v t0.n s0 → admissibleH t0.n s0 h = true →
+    (∀ x ∈ h, WritesOf v t0.n x) →
+    (runH t0 h).n = t0.n ∧ C17.Rel (runH t0 h) (specRunH t0.n s0 h) ∧
+      SpecOf v t0.n (specRunH t0.n s0 h) ∧ (runH t0 h).Agree v
+  | [], t0, s0, hrel, hs0, _, _ => ⟨rfl, hrel, hs0, agree_of_rel hrel hs0⟩
+  | x :: h, t0, s0, hrel, hs0, hadm, hw => by
+    simp only [admissibleH, Bool.and_eq_true] at hadm
+    obtain ⟨hn, hr⟩ := refinesH hrel x hadm.1
+    have hs1 := specOf_step hs0 x (hw x List.mem_cons_self)
+    have ih := histories_agree v h (applyH t0 x) (specStepH t0.n s0 x) hr (by rw [hn]; exact hs1)
+      (by rw [hn]; exact hadm.2) (by rw [hn]; exact fun y hy => hw y (List.mem_cons_of_mem _ hy))
+    rw [hn] at ih
+    exact ih
+
+end hist
+
+section histories
+variable [AddCommGroup α] [LinearOrder α] [IsOrderedAddMonoid α]
+
+/-- **C01_histories**, for every registered computer (the SAM approximation under `MonoDec`). -/
+theorem histories_any (k : Computer) (v : Nat → α) (t0 : Table α) (s0 : C17.Spec α)
+    (hrel : C17.Rel t0 s0) (hs0 : SpecOf v t0.n s0) (h : List (HOp α))
+    (hadm : admissibleH t0.n s0 h = true) (hw : ∀ x ∈ h, WritesOf v t0.n x)
+    (hsa : SA t0.n v) (hmd : k.NeedsMono → MonoDec t0.n v)
+    (hmin : MinInfo (runH t0 h).n (runH t0 h).known) :
+    ∃ t', k.run (runH t0 h) = .ok t' ∧ SoundFor (runH t0 h) t' v := by
+  obtain ⟨hn, _, _, hag⟩ := histories_agree v h t0 s0 hrel hs0 hadm hw
+  exact run_sound k (runH t0 h) (by rw [hn]; exact hsa) (by rw [hn]; exact hmd) hmin hag
+
+/-- **C01_histories.**  `k` one of the two exact computers, `v` superadditive.  For every history of C17
+    operations interleaved with compute steps, applied to any table `t0` that C17's relation ties to a
+    known-map holding values of `v`, in which scalar bound writes hit unknown rows only (`admissibleH`)
+    and every written value is `v`'s (`WritesOf`): if the final table has minimal information, a final
+    compute succeeds and the conclusion of `sound` holds. -/
+theorem histories (k : Computer) (hk : k = .sa ∨ k = .sac) (v : Nat → α) (t0 : Table α)
+    (s0 : C17.Spec α) (hrel : C17.Rel t0 s0) (hs0 : SpecOf v t0.n s0) (h : List (HOp α))
+    (hadm : admissibleH t0.n s0 h = true) (hw : ∀ x ∈ h, WritesOf v t0.n x) (hsa : SA t0.n v)
+    (hmin : MinInfo (runH t0 h).n (runH t0 h).known) :
+    ∃ t', k.run (runH t0 h) = .ok t' ∧ t'.n = (runH t0 h).n ∧ t'.known = (runH t0 h).known ∧
+      ∀ c, c < 2 ^ (runH t0 h).n → t'.lo c ≤ v c ∧ v c ≤ t'.hi c ∧ t'.lo c ≤ t'.hi c ∧
+        ((runH t0 h).known c = true → t'.lo c = v c ∧ t'.hi c = v c) :=
+  histories_any k v t0 s0 hrel hs0 h hadm hw hsa
+    (fun hm => absurd hm (Computer.not_needsMono_of_isSA ((Computer.isSA_iff k).mpr hk))) hmin
+
+/-- from a new game on `n` players (`v ∅ = 0`: a new game knows ∅ with value 0) -/
+theorem histories_init (k : Computer) (hk : k = .sa ∨ k = .sac) (v : Nat → α) (n : Nat) (hv0 : v 0 = 0)
+    (h : List (HOp α)) (hadm : admissibleH n (C17.specInit (α := α)) h = true)
+    (hw : ∀ x ∈ h, WritesOf v n x) (hsa : SA n v)
+    (hmin : MinInfo n (runH (Table.init n) h).known) :
+    ∃ t', k.run (runH (Table.init n) h) = .ok t' ∧ SoundFor (runH (Table.init n) h) t' v := by
+  have hn : (runH (Table.init (α := α) n) h).n = n :=
+    (histories_agree v h (Table.init n) C17.specInit (C17.rel_init n) (specOf_init n hv0) hadm hw).1
+  exact histories k hk v (Table.init n) C17.specInit (C17.rel_init n) (specOf_init n hv0) h hadm hw hsa
+    (by rw [hn]; exact hmin)
+
+/-- applied to ANY table reachable from a new game: the table after a prefix `pre`, then any
+    continuation `h` (the side conditions are those of the whole history `pre ++ h`) -/
+theorem histories_reachable (k : Computer) (hk : k = .sa ∨ k = .sac) (v : Nat → α) (n : Nat)
+    (hv0 : v 0 = 0) (pre h : List (HOp α))
+    (hadm : admissibleH n (C17.specInit (α := α)) (pre ++ h) = true)
+    (hw : ∀ x ∈ pre ++ h, WritesOf v n x) (hsa : SA n v)
+    (hmin : MinInfo n (runH (runH (Table.init n) pre) h).known) :
+    ∃ t', k.run (runH (runH (Table.init n) pre) h) = .ok t' ∧
+      SoundFor (runH (runH (Table.init n) pre) h) t' v := by
+  rw [← runH_append] at hmin ⊢
+  exact histories_init k hk v n hv0 (pre ++ h) hadm hw hsa hmin
+
+omit [IsOrderedAddMonoid α] in
+/-- the knowledge of the final table can be read off the known-map, which does not involve the
+    computations: `MinInfo` of the final table follows from `MinInfo` of the known-map -/
+theorem minInfo_of_spec (v : Nat → α) (n : Nat) (hv0 : v 0 = 0) (h : List (HOp α))
+    (hadm : admissibleH n (C17.specInit (α := α)) h = true) (hw : ∀ x ∈ h, WritesOf v n x)
+    (hspec : MinInfo n (fun c => (specRunH n C17.specInit h c).isSome)) :
+    MinInfo n (runH (Table.init n) h).known := by
+  obtain ⟨hn, hrel, _, _⟩ :=
+    histories_agree v h (Table.init n) C17.specInit (C17.rel_init n) (specOf_init n hv0) hadm hw
+  have hk : ∀ c, c < 2 ^ n → (runH (Table.init (α := α) n) h).known c
+      = (specRunH n C17.specInit h c).isSome := fun c hc => (hrel c (by rw [hn]; exact hc)).1
+  have hp := Nat.two_pow_pos n
+  exact ⟨by rw [hk 0 hp]; exact hspec.1, by rw [hk _ (by omega)]; exact hspec.2.1,
+    fun i hi => by rw [hk _ (Nat.pow_lt_pow_right (by omega) hi)]; exact hspec.2.2 i hi⟩
+
+end histories
+
+/-! ### a concrete history (3 players, `Int`, the game `SpecSA.exV`) -/
+
+/-- a compute that raises (too little knowledge), the singletons and N, junk bounds written into the
+    unknown pair {0,1}, a compute with the cached computer, reveal {0,1}, a SAM compute, bulk upper
+    bounds, un-reveal, set {1,2}, unset {0} followed by a compute that raises, set {0} again -/
+def demoH : List (HOp Int) :=
+  [.op (.set 1 1), .compute .sa,                    -- raises: singletons 2, 4 and N unknown
+   .op (.set 2 2), .op (.set 1 4), .op (.set 9 7),
+   .op (.setLowerBound 50 3), .op (.setUpperBound (-50) 3),   -- stale junk in an unknown row
+   .compute .sac,
+   .op (.reveal 4 3), .compute (.sam 2),
+   .op (.setBounds true [7, 7, 7] (some [3, 5, 6])),           -- bulk upper bounds: known row 3 untouched
+   .op (.unreveal 3), .op (.set 5 6), .op (.unset 1), .compute .sa,   -- raises: singleton {0} unknown
+   .op (.set 1 1)]
+
+theorem demoH_adm : admissibleH 3 (C17.specInit (α := Int)) demoH = true := by decide
+
+theorem demoH_writes : ∀ x ∈ demoH, WritesOf SpecSA.exV 3 x := by
+  intro x hx
+  simp only [demoH, List.mem_cons, List.mem_nil_iff, or_false] at hx
+  rcases hx with rfl | rfl | rfl | rfl | rfl | rfl | rfl | rfl | rfl | rfl | rfl | rfl | rfl | rfl |
+    rfl | rfl <;> first | trivial | (intro _; decide)
+
+theorem demoH_min : MinInfo 3 (runH (Table.init 3) demoH).known :=
+  minInfo_of_spec SpecSA.exV 3 (by decide) demoH demoH_adm demoH_writes (by
+    refine ⟨by decide, by decide, ?_⟩
+    have h : ∀ i, i < 3 → (specRunH 3 C17.specInit demoH (2 ^ i)).isSome = true := by decide
+    exact h)
+
+/-- hypotheses of `histories_init` satisfiable: after `demoH` the final compute is sound -/
+example : ∃ t', sa (runH (Table.init 3) demoH) = .ok t' ∧
+    SoundFor (runH (Table.init 3) demoH) t' SpecSA.exV :=
+  histories_init .sa (Or.inl rfl) SpecSA.exV 3 (by decide) demoH demoH_adm demoH_writes
+    SpecSA.exV_SA demoH_min
+
+example : ∃ t', sac (runH (Table.init 3) demoH) = .ok t' ∧
+    SoundFor (runH (Table.init 3) demoH) t' SpecSA.exV :=
+  histories_init .sac (Or.inr rfl) SpecSA.exV 3 (by decide) demoH demoH_adm demoH_writes
+    SpecSA.exV_SA demoH_min
 
 end ICG.C01
